@@ -400,7 +400,7 @@ func c10Run(c *Ctx) {
 		}
 	})
 	// wide family: more than 32 / 64 addressed values
-	for _, width := range []int{33, 70} {
+	for _, width := range []int{31, 32, 33, 63, 64, 65, 70} {
 		for _, p := range []string{"l.k", "l", "m.*.k", "m.*", "*.k"} {
 			if !c.Mine() {
 				continue
@@ -421,7 +421,7 @@ func c10Run(c *Ctx) {
 	}
 	// sub-key family: typed leaves so that value conditions can match
 	g2 := newGen(GenP{Keys: []string{"a", "ab", "k"}, MaxList: 3, MaxKeys: 3, EmptyList: false, EmptyMap: true, ListInList: false, Leaves: []interface{}{"s", 1.0}})
-	subsets := [][]string{{"a:*"}, {"!a:*"}, {"a:s"}, {"!a:s"}, {"a:1:num"}, {"ab:*"}, {"z:*"}, {"!z:q"}, {"a:s", "ab:*"}, {"a:*", "!ab:1:num"}, {"!z:*", "a:q"}, {"a:q", "!z:*"}, {"!z:*", "ab:*"}}
+	subsets := [][]string{{"a:*"}, {"!a:*"}, {"a:s"}, {"!a:s"}, {"a:1:num"}, {"!a:1:num"}, {"ab:*"}, {"z:*"}, {"!z:q"}, {"a:s", "ab:*"}, {"a:*", "!ab:1:num"}, {"!z:*", "a:q"}, {"a:q", "!z:*"}, {"!z:*", "ab:*"}}
 	var paths2 []string
 	seqs([]string{"a", "ab", "k", "*"}, 2, func(s []string) { paths2 = append(paths2, strings.Join(s, ".")) })
 	g2.rootMaps(n2, func(t *T) {
